@@ -356,6 +356,51 @@ theorem negStart_word (t : Tok) (hw : t.isWord = true) (h : t.wf = true) : negSt
 
 theorem sciGlues_nil (l c : Char) : sciGlues [] l c = false := by simp [sciGlues, sciPrefix, utf8Len]
 
+theorem opTexts_no_dot : Spacing.opTexts.all (fun o => o.headD '\x00' != '.') = true := by decide
+
+/-- a token that starts with a dot is a path with a leading dot: a letter follows -/
+theorem tok_dot_start (R : Tok) (hR : R.wf = true) (h : R.first = '.') :
+    ∃ x rest, R.text = '.' :: x :: rest ∧ isDig x = false := by
+  cases R with
+  | name lead segs =>
+    simp only [Tok.wf, Bool.and_eq_true, Bool.not_eq_true', List.all_eq_true] at hR
+    obtain ⟨⟨⟨h1, h2⟩, _⟩, _⟩ := hR
+    have hne : segs ≠ [] := by intro he; rw [he] at h1; simp at h1
+    obtain ⟨c1, r1, hcr, hc1⟩ := dotted_head segs hne h2
+    cases lead with
+    | true => exact ⟨c1, r1, by simp [Tok.text, hcr], (letter_facts c1 hc1).2.2.1⟩
+    | false =>
+      exfalso
+      have hd : c1 ≠ '.' := (idc_facts c1 (by simp [idc, hc1])).2.2.2.2.1
+      simp [Tok.first, Tok.text, hcr] at h
+      exact hd h
+  | num neg ip fp ex =>
+    exfalso
+    simp only [Tok.wf, Bool.and_eq_true] at hR
+    obtain ⟨hne, hd⟩ := (isDigits_iff ip).1 hR.1.1
+    cases ip with
+    | nil => exact absurd rfl hne
+    | cons d r =>
+      have hdd := hd d (by simp)
+      have hdot : d ≠ '.' := isDig_ne_dot d hdd
+      cases neg <;> simp [Tok.first, Tok.text] at h
+      exact hdot h
+  | op o =>
+    exfalso
+    simp only [Tok.wf, List.contains_iff_mem] at hR
+    have := List.all_eq_true.1 opTexts_no_dot o hR
+    simp only [Tok.first, Tok.text] at h
+    rw [h] at this
+    exact absurd this (by decide)
+  | punct c =>
+    exfalso
+    simp only [Tok.wf, List.contains_iff_mem] at hR
+    have e : "()[]{},;".toList = ['(', ')', '[', ']', '{', '}', ',', ';'] := by decide
+    rw [e] at hR
+    simp only [Tok.first, Tok.text, List.headD_cons] at h
+    subst h
+    simp at hR
+
 /-! ## the situation after a token -/
 
 /-- `σ` is the situation after the token `L` written after the character `pb` -/
@@ -460,7 +505,9 @@ theorem stepOK_of_spec (σ : Sit) (pb : Char) (L : Tok) (hm : Matches σ pb L) (
     simp only [Spacing.tightOK, Bool.and_eq_true, Bool.not_eq_true', Bool.or_eq_true] at ht'
     obtain ⟨⟨⟨hW, hD⟩, hS⟩, hB⟩ := ht'
     obtain ⟨hl, hq⟩ := hm
-    rw [toPiece_first R hR]
+    have hfirst : (toPiece R).text.headD '\x00' = R.first := by rw [toPiece_text R hR]; rfl
+    unfold noGlue
+    simp only [hfirst]
     cases L with
     | name lead segs => simp only [toPiece] at hq; rw [hq]; trivial
     | num neg ip fp ex => simp only [toPiece] at hq; rw [hq]; trivial
@@ -481,9 +528,14 @@ theorem stepOK_of_spec (σ : Sit) (pb : Char) (L : Tok) (hm : Matches σ pb L) (
         have hisop : Tok.isOp1 (.op [a]) = true := rfl
         rw [hisop, hlast] at hD
         simp only [Bool.true_and] at hD
-        refine ⟨?_, ?_⟩
+        refine ⟨?_, ?_, ?_⟩
         · rw [Bool.eq_false_iff]; intro hmm
           rw [digraph_of_opMerges a _ hmm] at hD; cases hD
+        rotate_left
+        · intro hdg
+          simp only [dotGlues, Bool.and_eq_true, beq_iff_eq] at hdg
+          rw [toPiece_text R hR]
+          exact tok_dot_start R hR hdg.2
         · simp only [signGlues]
           rw [Bool.eq_false_iff]; intro hsg
           simp only [Bool.and_eq_true, beq_iff_eq] at hsg
